@@ -7,6 +7,9 @@
 #include "oomd/engine/Ruleset.h"
 namespace vfh {
 enum { K_RET = 10000, K_ACT_ADV = 30000 };
+#ifndef VF_RET_MAX
+#define VF_RET_MAX 2   /* 2: CONTINUE/STOP/ASYNC_PAUSED; 1: no ASYNC_PAUSED */
+#endif
 #ifndef VF_ACT_ADV_MAX_S
 #define VF_ACT_ADV_MAX_S 2
 #endif
@@ -42,7 +45,7 @@ struct Scripted : Oomd::Engine::BasePlugin {
   int prerun_tick{-1};
   void prerun(Oomd::OomdContext&) override { prerun_tick = g_tick; vf_event(EV_PRERUN, id, serial, 0, 0); }
   Oomd::Engine::PluginRet run(Oomd::OomdContext& ctx) override {
-    int r = (int)vf_nd(K_RET + id, 0, 2);
+    int r = (int)vf_nd(K_RET + id, 0, VF_RET_MAX);
     bool isAction = (id % 1000) >= 100;
     const Oomd::ActionContext& ac = ctx.getActionContext();
     auto inv = ctx.getInvokingRuleset();
